@@ -162,6 +162,9 @@ def check(ctx) -> None:
         (pair_job(ctx), {"issue"}),
         (prog.func(RUN), {"issue_col"}),
     ]
+    from ..util import param_attrs
+
+    jobs = [(f_, names_ | (param_attrs(f_.cls, "issue_col") if f_.cls is not None else set())) for f_, names_ in jobs]
     for f, issue_names in jobs:
         short = f.qualname.split("synrbl.", 1)[-1]
         fallible = []
